@@ -46,14 +46,15 @@ pub fn make_pool(workers: usize) -> rayon::ThreadPool {
                 b = b.name(n.to_string());
             }
             b = b.stack_size(thread.stack_size().unwrap_or(16 << 20));
-            sim::with_raw_spawn(|| {
+            let h = sim::with_raw_spawn(|| {
                 b.spawn(move || {
                     sim::thread_begin(id);
                     thread.run();
                     sim::thread_end();
                 })
             })?;
-            sim::thread_spawned(id);
+            use std::os::unix::thread::JoinHandleExt;
+            sim::thread_spawned_as(id, h.as_pthread_t());
             Ok(())
         })
         .build()
